@@ -377,6 +377,101 @@ def family(kind, b, v):
     return kind.split(":")[0]
 
 
+
+# ----------------------------------------------------------------------------------------------------------------
+# Attributes -> members (stream `c09configure`).  A definition is an ORDERED list of entries, as the keys stand in
+# the command's mapping after `tool:`:  ("i", [names]) inputs | ("o", [names]) outputs | ("d", text) description |
+# ("s", key, text) scalar attribute | ("l", key, [texts]) list attribute | ("m", key, [(k, v)]) map attribute.
+FLAG_ATTR = {"ami": b"allow-missing-inputs", "amo": b"allow-modified-outputs", "aood": b"always-out-of-date"}
+STYLE_NAMES = {1: b"makefile", 2: b"dependency-info", 3: b"makefile-ignoring-subsequent-outputs"}
+# python restatement of the hashed attributes of the shell tool (HASHED_KEYS has the other tools); both are compared with the
+# table the Lean side derives from the GENERATED configure tables and recipes (driver mode `c09attrcheck hashed`)
+SHELL_HASHED = ["args", "env", "deps", "deps-style", "inherit-env", "can-safely-interrupt", "signature", "working-directory",
+                "control-enabled"]
+EXT_FLAGS = ["allow-missing-inputs", "allow-modified-outputs", "always-out-of-date"]
+# attributes that may be added / edited without moving the signature (python restatement of `deliberatelyUnsigned`)
+UNSIGNED_EDITS = {"shell": ["d", "repair"], "phony": ["d", "repair"], "clang": ["d", "repair"], "mkdir": ["d", "repair"],
+                  "archive": ["d", "repair"], "swift-compiler": ["d", "repair"], "shared-library": ["d"],
+                  "symlink": ["d", "repair", "link-output-path"], "stale-file-removal": ["d", "expectedOutputs", "roots"]}
+
+
+def entry_enc(e):
+    if e[0] in ("i", "o"):
+        return "%s=%s" % (e[0], hl(e[1]))
+    if e[0] == "d":
+        return "d=%s" % C.hexs(e[1])
+    if e[0] == "s":
+        return "s:%s=%s" % (C.hexs(e[1]), C.hexs(e[2]))
+    if e[0] == "l":
+        return "l:%s=%s" % (C.hexs(e[1]), hl(e[2]))
+    return "m:%s=%s" % (C.hexs(e[1]), ",".join("%s:%s" % (C.hexs(k), C.hexs(v)) for k, v in e[2]) if e[2] else ".")
+
+
+def cline(cwd, tool, name, entries):
+    return " ".join([C.hexs(cwd), tool, C.hexs(name)] + [entry_enc(e) for e in entries])
+
+
+def entry_group(e):
+    """entries with different groups touch different members: their relative order does not matter"""
+    return e[0] if e[0] in ("i", "o", "d") else e[1]
+
+
+def entries_of(d):
+    """the canonical entry list of a generated definition (shell / phony dicts and the `x` dicts of the other tools)"""
+    bt = lambda v: b"true" if v else b"false"
+    es = []
+    if d["inputs"]:
+        es.append(("i", list(d["inputs"])))
+    if d["outputs"]:
+        es.append(("o", list(d["outputs"])))
+    if d["tool"] != "shared-library":          # its scalar overload ignores them; covered by the `ignored` variants
+        for f, a in FLAG_ATTR.items():
+            if d[f]:
+                es.append(("s", a, b"true"))
+    if "x" in d:
+        for k, v in d["x"].items():
+            ty = KEYTYPE[k]
+            if ty == "s":
+                es.append(("s", k.encode(), v))
+            elif ty == "l":
+                if v:
+                    es.append(("l", k.encode(), list(v)))
+            elif ty == "b":
+                es.append(("s", k.encode(), bt(v)))
+        return es
+    if d["tool"] == "shell":
+        if d["args"]:
+            es.append(("l", b"args", list(d["args"])))
+        if d["env"]:
+            es.append(("m", b"env", list(d["env"])))
+        if d["deps"]:
+            es.append(("l", b"deps", list(d["deps"])))
+        if d["style"]:
+            es.append(("s", b"deps-style", STYLE_NAMES[d["style"]]))
+        if not d["inh"]:
+            es.append(("s", b"inherit-env", b"false"))
+        if not d["csi"]:
+            es.append(("s", b"can-safely-interrupt", b"false"))
+        if d["sig"]:
+            es.append(("s", b"signature", d["sig"]))
+        for k, v in d.get("tail", []):
+            es.append(("s", k.encode(), bt(v) if KEYTYPE[k] == "b" else v))
+    return es
+
+
+def obs_fields(line):
+    """`loaded k=v ... diags=..` -> dict; other outcomes -> {'outcome': first word, ...}"""
+    parts = line.split(" ")
+    r = {"outcome": parts[0]}
+    for p in parts[1:]:
+        if "=" in p:
+            k, v = p.split("=", 1)
+            r[k] = v
+        else:
+            r[p] = True
+    return r
+
+
 class Check(PropertyCheck):
     prop = "C09"
     module = "LLBuild.Props.C09All"
@@ -396,16 +491,27 @@ class Check(PropertyCheck):
                 "LLBuild.Signature.C09_sig_iff_every_tool", "LLBuild.Signature.C09_unsigned_attributes",
                 "LLBuild.Signature.C09_signed_attributes_configurable",
                 "LLBuild.Signature.C09_lists_delimited", "LLBuild.Signature.C09_prefix_lists_not_delimited",
+                # definition (keys of the build file) -> members, through the generated configure* tables (Props/C09Attrs.lean)
+                "LLBuild.BSAttrs.C09_tables_are_class_chains", "LLBuild.BSAttrs.C09_unsigned_assignments_pinned",
+                "LLBuild.BSAttrs.C09_hashed_attributes", "LLBuild.BSAttrs.C09_every_attribute_accounted",
+                "LLBuild.BSAttrs.C09_derived_members_from_hashed", "LLBuild.BSAttrs.C09_attribute_conversions",
+                "LLBuild.BSAttrs.C09_definition_change_changes_signature", "LLBuild.BSAttrs.C09_configure_change_changes_signature",
+                "LLBuild.BSAttrs.C09_distinct_keys_independent", "LLBuild.BSAttrs.C09_hashed_members_independent_of_unsigned",
+                "LLBuild.BSAttrs.C09_definition_equal_signature_equal", "LLBuild.BSAttrs.C09_scalar_args_same_command",
+                "LLBuild.BSAttrs.C09_split_scalars_same_command", "LLBuild.BSAttrs.C09_working_directory_same_command",
+                "LLBuild.BSAttrs.C09_boolean_values_that_load",
                 # history half, on the abstract engine (tie to BuildEngine.cpp: the engine checks C01/C02)
                 "LLBuild.Engine.C02_null_build_after_build", "LLBuild.Engine.C09_changed_definition_reruns",
                 "LLBuild.Engine.C09_changed_definition_signature_differs", "LLBuild.Engine.C09_unchanged_definition_needs_other_reason"]
-    extractors = ["x_signature"]
+    extractors = ["x_signature", "x_bsattrs"]
     harnesses = [("vc09", "plain")]
     assumptions = [
         "injectivity is proved for the pre-hash term; collisions of llvm::hash_combine's 64-bit mixing are out of scope (a collision met by the correspondence/oracle is still reported)",
         "list lengths below 2^64 (terms carry unbounded naturals)",
         "the null-build / re-run-iff half of C09 rests on the engine model (C02) and is not part of this check",
-        "CommandDef -> field values: the loader's configure* functions store attribute values unchanged (exercised, not proved: every generated definition of every tool goes through the real BuildFile loader)",
+        "definition -> members: the configure* functions are interpreted from tables regenerated from the clang AST (x_bsattrs); a Definition is the ORDERED key list BuildFileImpl::parseCommandsMapping hands to the command (the YAML layer and its `inputs`/`outputs`/`description` dispatch are C17/C19's); nodes are implicit (no `nodes:` section entry overrides the virtual-by-name rule); the tool-level `control-enabled` of the shell tool is not set",
+        "ctx.error(..) without `return false` does not stop the load (BuildFileImpl::numErrors is never consulted): such definitions are `loaded` with diagnostics and the theorems cover them; the frontend builds them and exits 1",
+        "hand models of StringRef::getAsInteger(10,int), llvm::sys::fs::make_absolute (POSIX, cwd beginning with one '/'), StringRef::split(KeepEmpty=false), createNode's virtual-name rule: tied by the c09configure correspondence only",
         "symlink commands have exactly one declared output (what configureOutputs accepts; without an `outputs:` key the real getSignature() reads outputs[0] out of bounds - model: no term)",
         "shell working-directory is compared as stored (absolute); a RELATIVE working-directory is made absolute against the process cwd by configureAttribute, so its signature (like what the command does) depends on where llbuild runs - generators use absolute values only",
         "attributes judged not to change what a command does stay unhashed: repair-via-ownership-analysis, description, symlink link-output-path (isResultValid stats the actual path; history re-runs), stale-file-removal expectedOutputs/roots (always runs)",
@@ -413,7 +519,8 @@ class Check(PropertyCheck):
     trusted_base = ["extractor x_signature (clang-14 JSON AST -> recipe; overload resolved through the callee decl id; Hashing.h text shapes; "
                     "tool -> command class -> nearest getSignature override and the attribute names of the configureAttribute overloads are read at TEXT level)",
                     "hand model of llvm::hash_value/hash_combine/hash_short/hash_state (bit-exact correspondence on every run)",
-                    "harness vc09 (real BuildSystem + BuildFile loader; getSignature() observed in commandPreparing)",
+                    "harness vc09 (real BuildSystem + BuildFile loader; getSignature() observed in commandPreparing; mode `configure` reads the private members of ExternalCommand / ShellCommand by re-reading those two headers with `class` -> `struct`)",
+                    "extractor x_bsattrs (clang-14 JSON AST of every configure* body -> attribute tables; statement shapes matched exactly, fail closed; tool -> command class and DefaultShellPath / createNode / getInputs read at text level)",
                     "python oracle `relevant` (independent restatement of the signature-relevant part)"]
 
     # ------------------------------------------------------------------ generation
@@ -628,6 +735,253 @@ class Check(PropertyCheck):
         if not any(o.get("family") in ("history", "unsigned-attribute") and o.get("input", {}).get("dir", "").startswith(root) for o in res.oracle_failures):
             shutil.rmtree(root, ignore_errors=True)
 
+    # ------------------------------------------------------------------ attributes -> members
+    def configure_stream(self, ctx, res):
+        """Every generated definition as an ordered key list, plus order permutations, repeated keys, scalar forms of list
+        attributes, invalid values, unknown attributes, relative working directories: the members the REAL loader leaves in
+        the command object (vc09 configure) against `BSAttrs.run` on the generated tables (driver mode c09configure)."""
+        import threading
+        rng = ctx.rng
+        exe = ctx.exe[("vc09", "plain")]
+        cwd = os.path.join(C.BUILD, "scratch", "c09-cfg-cwd")
+        os.makedirs(os.path.join(cwd, "rel"), exist_ok=True)
+        cwdb = cwd.encode()
+        n = 600 if ctx.thorough else 60
+        bases = [b for b in self.bases(ctx, 3 * n) + self.obases(ctx, 4 * n) if b["tool"] != "node" and b["name"]]
+        lines, index = [], {}
+        equal_groups = []      # (why, [line indices]) : the real loader must leave the SAME observation
+        sig_groups = []        # (why, [line indices]) : ... the same signature
+        kinds = {}
+
+        def put(tool, name, es, kind):
+            l = cline(cwdb, tool, name, es)
+            if l not in index:
+                index[l] = len(lines)
+                lines.append(l)
+            kinds[kind] = kinds.get(kind, 0) + 1
+            return index[l]
+        wds = [b"", b"rel", b"rel/x y", b"/abs/dir", b"//net", b"//net/x", b"///x", b"a/", b"/", b".", b"//", b"./rel"]
+        bad_bools = [b"yes", b"", b"True", b"FALSE", b"1", b"false ", b"tru"]
+        for d in bases:
+            tool, name = d["tool"], d["name"]
+            # a node that is both input and output of the command is a cycle: the engine then calls cycleDetected() through a
+            # static_cast of the delegate to BuildSystemFrontendDelegate, which the harness's delegate is not
+            d = dict(d, outputs=[o for o in d["outputs"] if o not in d["inputs"]])
+            if not loadable(dict(d, x=d.get("x", {"producers": [b"p"]}))) and tool in ("archive", "shared-library", "symlink"):
+                continue
+            es = entries_of(d)
+            c0 = put(tool, name, es, "canonical")
+            # 1 order of distinct keys: any permutation that keeps the relative order of entries of the same key
+            grp = [c0]
+            for _ in range(2):
+                keys = [rng.below(1000) for _ in es]
+                slots = sorted(range(len(es)), key=lambda i: (keys[i], i))
+                bygroup = {}
+                for pos, i in enumerate(slots):
+                    bygroup.setdefault(entry_group(es[i]), []).append(pos)
+                perm = [None] * len(es)
+                for g, poss in bygroup.items():
+                    for pos, e in zip(sorted(poss), [e for e in es if entry_group(e) == g]):
+                        perm[pos] = e
+                grp.append(put(tool, name, perm, "permutation"))
+            equal_groups.append(("order of distinct keys", grp))
+            # 2 a key repeated (before / after, other value): overwrite or append as the C++ statement does
+            if es:
+                i = rng.below(len(es))
+                e = es[i]
+                if e[0] in ("i", "o"):
+                    dup = (e[0], [b"zz" + e[0].encode()] + e[1][:1])
+                elif e[0] == "d":
+                    dup = ("d", e[1] + b"2")
+                elif e[0] == "s":
+                    dup = ("s", e[1], e[2] if e[2] in (b"true", b"false") else e[2] + b"2")
+                    if e[2] in (b"true", b"false") and rng.chance(1, 2):
+                        dup = ("s", e[1], b"false" if e[2] == b"true" else b"true")
+                elif e[0] == "l":
+                    dup = ("l", e[1], [b"zz"] + e[2][:1])
+                else:
+                    dup = ("m", e[1], [(b"ZZ", b"zz")] + e[2][:1])
+                j = rng.below(len(es) + 1)
+                put(tool, name, es[:j] + [dup] + es[j:], "repeated-key")
+                if e[0] == "l" and rng.chance(1, 2):     # the same key once as a list and once as a scalar
+                    put(tool, name, es[:j] + [("s", e[1], b" ".join(e[2]))] + es[j:], "repeated-key")
+            # 3 scalar forms of list attributes and equal conversions
+            for i, e in enumerate(es):
+                if e[0] == "l" and e[1] == b"args" and tool in ("shell", "clang") and e[2][:2] == [b"/bin/sh", b"-c"] and len(e[2]) == 3:
+                    equal_groups.append(("scalar args = [/bin/sh, -c, value]", [c0, put(tool, name, es[:i] + [("s", b"args", e[2][2])] + es[i + 1:], "scalar-form")]))
+                if e[0] == "l" and e[1] in (b"sources", b"objects", b"import-paths", b"other-args") and tool in ("swift-compiler", "shared-library") \
+                        and all(x and b" " not in x for x in e[2]):
+                    sep = rng.choice([b" ", b"  ", b" "])
+                    sc = rng.choice([b"", b" "]) + sep.join(e[2]) + rng.choice([b"", b"  "])
+                    equal_groups.append(("space-separated scalar = list", [c0, put(tool, name, es[:i] + [("s", e[1], sc)] + es[i + 1:], "scalar-form")]))
+                if e[0] == "l" and e[1] == b"deps" and tool == "shell" and len(e[2]) == 1:
+                    equal_groups.append(("scalar deps = one-element list", [c0, put(tool, name, es[:i] + [("s", b"deps", e[2][0])] + es[i + 1:], "scalar-form")]))
+            if tool in ("shell", "clang") and rng.chance(1, 2):
+                v = rng.choice([b"echo hi", b"", b"a 'b' c", b"x"])
+                a = put(tool, name, [e for e in es if entry_group(e) != b"args"] + [("s", b"args", v)], "scalar-form")
+                b2 = put(tool, name, [e for e in es if entry_group(e) != b"args"] + [("l", b"args", [b"/bin/sh", b"-c", v])], "scalar-form")
+                equal_groups.append(("scalar args = [/bin/sh, -c, value]", [a, b2]))
+            if tool in ("swift-compiler", "shared-library") and rng.chance(1, 2):
+                k = rng.choice([b"sources", b"objects", b"import-paths", b"other-args"] if tool == "swift-compiler" else [b"other-args"])
+                put(tool, name, es + [("s", k, rng.choice([b"", b" ", b"a  b ", b" -O1 -g", b"one"]))], "scalar-form")
+            # 4 deliberately unsigned keys: adding / editing them must not move the signature
+            for what in UNSIGNED_EDITS[tool]:
+                if what == "d":
+                    extra = [("d", rng.choice([b"Compiling x", b"", b"d d"]))]
+                elif what == "repair":
+                    extra = [("s", b"repair-via-ownership-analysis", rng.choice([b"true", b"false"]))]
+                elif what == "link-output-path":
+                    extra = [("s", b"link-output-path", rng.choice([b"other", b"", b"/l p"]))]
+                else:
+                    extra = [("l", what.encode(), [b"/zz", b"q"])]
+                j = rng.below(len(es) + 1)
+                sig_groups.append(("unsigned key " + what, [c0, put(tool, name, es[:j] + extra + es[j:], "unsigned-key")]))
+            # 5 invalid values, unknown keys, wrong value kinds
+            r = rng.below(8)
+            j = rng.below(len(es) + 1)
+            if r == 0:
+                key = rng.choice([b"allow-missing-inputs", b"always-out-of-date", b"repair-via-ownership-analysis", b"inherit-env", b"can-safely-interrupt",
+                                  b"control-enabled", b"is-library", b"enable-whole-module-optimization"])
+                put(tool, name, es[:j] + [("s", key, rng.choice(bad_bools))] + es[j:], "invalid-value")
+            elif r == 1:
+                put(tool, name, es[:j] + [("s", rng.choice([b"bogus", b"arg", b"Args", b"inputs2", b""]), b"v")] + es[j:], "unknown-key")
+            elif r == 2:
+                key = rng.choice([b"args", b"env", b"deps", b"sources", b"contents", b"roots", b"executable", b"other-args", b"allow-missing-inputs"])
+                val = rng.choice([("s", key, b"v w"), ("l", key, [b"v", b"w"]), ("l", key, []), ("m", key, [(b"K", b"V")]), ("m", key, [])])
+                put(tool, name, es[:j] + [val] + es[j:], "value-kind")
+            elif r == 3:
+                put(tool, name, es[:j] + [("s", b"deps-style", rng.choice([b"makefile", b"Makefile", b"", b"unused", b"dependency-info"]))] + es[j:], "invalid-value")
+            elif r == 4:
+                put(tool, name, es[:j] + [("s", b"num-threads", rng.choice([b"4", b"04", b"-0", b"-1", b"+4", b"4x", b"", b" 4", b"2147483647", b"2147483648",
+                                                                             b"-2147483648", b"-2147483649", b"99999999999999999999999", b"0x10"]))] + es[j:], "invalid-value")
+            elif r == 5:
+                put(tool, name, es[:j] + [("s", b"compiler-style", rng.choice([b"gcc", b"", b"Clang", b"cl", b"swiftc"]))] + es[j:], "invalid-value")
+            elif r == 6:
+                io = rng.choice(["i", "o"])
+                nl = rng.choice([[], [b"<v%>"], [b"%a", b"<%b>"], [b"<a%", b"%b>"], [b"%x", b"%y"], [b"<>"], [b"%d/", b"<%d>/"]])
+                put(tool, name, es[:j] + [(io, [x.replace(b"%", io.upper().encode()) for x in nl])] + es[j:], "node-lists")
+            else:
+                put(tool, name, es[:j] + [("l", b"args", [])] + es[j:], "invalid-value")
+            # 6 working directory of a shell command: relative values are made absolute against the process cwd
+            if tool == "shell":
+                put(tool, name, [e for e in es if entry_group(e) != b"working-directory"] + [("s", b"working-directory", rng.choice(wds))], "working-directory")
+        # hand-written: every shape once, whatever the seed
+        hw = [("shell", [("s", b"working-directory", w)]) for w in wds] + \
+             [("archive", [("i", [b"<v>"]), ("o", [b"x"]), ("o", [b"y"])]), ("archive", [("o", [b"<v>"]), ("i", [b"a", b"<b>", b"c"])]),
+              ("shared-library", [("i", [b"a.o"]), ("o", [b"l.so", b"m.so"]), ("s", b"compiler-style", b"gcc"), ("s", b"allow-missing-inputs", b"true"), ("s", b"anything", b"x")]),
+              ("shared-library", [("s", b"other-args", b" -O1  -g "), ("l", b"other-args", [b"a b"]), ("s", b"compiler-style", b"cl")]),
+              ("symlink", [("o", [b"a", b"b"])]), ("symlink", [("o", [])]), ("symlink", [("s", b"contents", b"x")]),
+              ("symlink", [("o", [b"l"]), ("o", [b"m"]), ("s", b"contents", b"t g"), ("s", b"link-output-path", b"p q")]),
+              ("stale-file-removal", [("l", b"roots", [b"/a", b"/b", b"/a"]), ("l", b"roots", [b"/b"]), ("l", b"expectedOutputs", [b"x"]), ("i", [b"ignored"]), ("o", [b"ignored"])]),
+              ("stale-file-removal", [("s", b"roots", b"/a")]), ("stale-file-removal", [("m", b"roots", [])]),
+              ("mkdir", [("o", [b"d ir"])]), ("mkdir", []), ("phony", [("o", [b"<x>"]), ("d", b"unused by phony")]),
+              ("clang", [("s", b"args", b"cc -c"), ("s", b"deps", b"a.d"), ("l", b"deps", [b"x"])]),
+              ("shell", [("l", b"args", [b"a'b", b"c d", b"e"]), ("m", b"env", [(b"K", b"V"), (b"K", b"W")]), ("m", b"env", [])]),
+              ("shell", [("s", b"deps", b"d1"), ("l", b"deps", [b"d2", b"d3"]), ("s", b"deps", b"d4"), ("s", b"deps-style", b"makefile"), ("s", b"deps-style", b"dependency-info")]),
+              ("swift-compiler", [("s", b"num-threads", b"-0"), ("s", b"sources", b"a  b c"), ("l", b"sources", [b"a b"]), ("s", b"is-library", b"true"), ("s", b"is-library", b"false")])]
+        for tool, es in hw:
+            put(tool, b"HW", es, "hand-written")
+        r = {}
+        ta = threading.Thread(target=lambda: r.__setitem__("h", C.run_lines([exe, "configure"], lines)))
+        tm = threading.Thread(target=lambda: r.__setitem__("m", C.run_lines(self.model_cmd("c09configure"), lines)))
+        ta.start(); tm.start(); ta.join(); tm.join()
+        (hrc, hout, herr), (mrc, mout, merr) = r["h"], r["m"]
+        if hrc != 0 or len(hout) != len(lines):
+            res.mismatches.append({"stream": "c09configure", "input": "harness exit %d, %d/%d lines" % (hrc, len(hout), len(lines)),
+                                   "impl": herr[-300:], "model": lines[len(hout)] if len(hout) < len(lines) else ""})
+            return
+        model_ok = mrc == 0 and len(mout) == len(lines)
+        if ctx.model_ok and not model_ok:
+            res.mismatches.append({"stream": "c09configure", "input": "model driver exit %d" % mrc, "model": merr[-300:]})
+        nm = 0
+        outcomes = {}
+        for i, l in enumerate(lines):
+            o = hout[i].split(" ")[0]
+            if o == "loaded" and not hout[i].endswith("diags=."):
+                o = "loaded-with-diagnostics"
+            outcomes[o] = outcomes.get(o, 0) + 1
+            if o not in ("loaded", "loaded-with-diagnostics", "aborted"):
+                res.mismatches.append({"stream": "c09configure", "input": l, "impl": hout[i], "model": mout[i] if model_ok else "?"})
+            elif model_ok and mout[i] != hout[i]:
+                nm += 1
+                if nm <= 10:
+                    res.mismatches.append({"stream": "c09configure", "input": l, "model": mout[i], "impl": hout[i]})
+        res.extra["configure_model_impl_mismatches"] = nm
+        # property oracle on the REAL observations (independent of the Lean model)
+        for why, grp in equal_groups:
+            base = hout[grp[0]]
+            if not (base.startswith("loaded ") and base.endswith("diags=.")):
+                continue
+            for j in grp[1:]:
+                if hout[j] != base:
+                    res.oracle_failures.append({"what": "two definitions that are the same command (%s) load differently" % why,
+                                                "kind": "definition-equivalence", "family": "configure", "tool": lines[j].split(" ")[1],
+                                                "input": {"lines": [lines[grp[0]], lines[j]], "observed": [base, hout[j]]}})
+        for why, grp in sig_groups:
+            a, b2 = obs_fields(hout[grp[0]]), obs_fields(hout[grp[1]])
+            if a["outcome"] == b2["outcome"] == "loaded" and "sig" in a and "sig" in b2 and a["sig"] != b2["sig"]:
+                res.oracle_failures.append({"what": "adding a key that is deliberately not part of the signature (%s) changed the signature" % why,
+                                            "kind": "impure", "family": "configure", "tool": lines[grp[0]].split(" ")[1],
+                                            "input": {"lines": [lines[grp[0]], lines[grp[1]]], "observed": [hout[grp[0]], hout[grp[1]]]}})
+        # definitions whose observed members differ in a hashed member must differ in the signature (shell: every member is observed)
+        by = {}
+        for i, l in enumerate(lines):
+            f = obs_fields(hout[i])
+            if f["outcome"] == "loaded" and l.split(" ")[1] == "shell" and "sig" in f:
+                by.setdefault(f["sig"], []).append((i, f))
+        hashed_view = lambda f, nm: (nm, f["in"], f["out"], f["ami"], f["amo"], f["aood"]) + ((("explicit", f["sigdata"]),) if f["sigdata"] != "-" else
+                                    (("builtin", f["args"], f["env"], f["deps"], f["style"], f["inh"], f["csi"], f["wd"], f["ce"]),))
+        for sg, items in by.items():
+            views = {}
+            for i, f in items:
+                views.setdefault(hashed_view(f, lines[i].split(" ")[2]), i)
+            if len(views) > 1:
+                i, j = list(views.values())[:2]
+                res.oracle_failures.append({"what": "two shell definitions whose loaded members differ in a hashed member have the same signature %s" % sg,
+                                            "kind": "collision", "attribute": "configure", "family": "configure", "tool": "shell",
+                                            "input": {"lines": [lines[i], lines[j]], "observed": [hout[i], hout[j]]}})
+        res.evaluations += len(lines)
+        d = res.distribution
+        d["configure_definitions"] = len(lines)
+        d["configure_kinds"] = kinds
+        d["configure_outcomes"] = outcomes
+        d["configure_equivalence_groups"] = len(equal_groups) + len(sig_groups)
+        res.samples.append({"configure": lines[0], "observation": hout[0]})
+
+    def attr_tables(self, ctx, res):
+        """the python tables of hashed / unsigned attributes against the ones Lean derives from the GENERATED tables"""
+        rc, out, err = C.run_lines(self.model_cmd("c09attrcheck"), ["lits", "keys", "hashed", "unsigned"])
+        if rc != 0 or len(out) != 4:
+            if ctx.model_ok:
+                res.mismatches.append({"stream": "c09attrcheck", "input": "model driver exit %d" % rc, "model": err[-300:]})
+            return
+        if not out[0].startswith("ok ") or out[1] != "ok":
+            res.mismatches.append({"stream": "c09attrcheck", "input": "literal / key self-check", "model": out[0] + " / " + out[1], "impl": "ok"})
+        gen = {}
+        for part in out[2].split(";"):
+            t, _, names = part.partition(":")
+            gen[t] = [x for x in names.split(",") if x]
+        want = {"shell": SHELL_HASHED + EXT_FLAGS, "phony": list(EXT_FLAGS)}
+        for t, keys in HASHED_KEYS.items():
+            if t != "node":
+                want[t] = list(keys) + (EXT_FLAGS if t in EXT_TOOLS and t != "shared-library" else [])
+        for t in sorted(set(gen) | set(want)):
+            if sorted(gen.get(t, [])) != sorted(want.get(t, [])):
+                res.mismatches.append({"stream": "c09attrcheck", "input": "hashed attributes of tool %s" % t,
+                                       "model": ",".join(sorted(gen.get(t, []))), "impl": "python HASHED_KEYS: " + ",".join(sorted(want.get(t, [])))})
+        un = {}
+        for part in out[3].split(";"):
+            f = part.split(":")
+            if len(f) == 4 and f[1] in ("scalar", "list", "map"):
+                un.setdefault(f[0], set()).add(f[2])
+        for t, keys in UNSIGNED_EDITS.items():
+            py = {k if k != "repair" else "repair-via-ownership-analysis" for k in keys if k != "d"}
+            if un.get(t, set()) != py:
+                res.mismatches.append({"stream": "c09attrcheck", "input": "unsigned attributes of tool %s" % t,
+                                       "model": ",".join(sorted(un.get(t, set()))), "impl": "python UNSIGNED_EDITS: " + ",".join(sorted(py))})
+        res.evaluations += 4
+        res.extra["generated_hashed_attributes"] = gen
+
     def run_defs(self, ctx, res, lines, tag):
         """two harness processes (different environment and working directory) + the Lean model"""
         import threading
@@ -827,12 +1181,18 @@ class Check(PropertyCheck):
         self.hash_stream(ctx, res)
         self.pairs(ctx, res, self.bases(ctx, 2500 if ctx.thorough else 200), "c09sig")
         self.pairs(ctx, res, self.obases(ctx, 1500 if ctx.thorough else 150), "c09sig-tools", line_of=oline_of, relevant=ohashed, variants=ovariants)
+        self.configure_stream(ctx, res)
+        self.attr_tables(ctx, res)
         self.histories(ctx, res)
         res.rule = ("every generated base definition (shell / phony tool, through the real BuildFile loader) against every definition that differs "
                     "from it in exactly one attribute, including every move of a boundary between adjacent lists and between adjacent elements; "
                     "each definition's getSignature() computed in two separate processes and by the Lean model (bit-exact). "
                     "The same for clang / mkdir / archive / shared-library / swift-compiler / symlink / stale-file-removal commands and for node rules "
-                    "(BuildNode::getSignature observed on the output node of a producing command).  14 two-build histories through bin/llbuild "
+                    "(BuildNode::getSignature observed on the output node of a producing command).  Stream c09configure: every base definition as an ORDERED key list "
+                    "plus order permutations, repeated keys, scalar forms of list attributes, invalid values, unknown keys, wrong value kinds, relative working "
+                    "directories: every member the real loader leaves in the command object (signature, inputs, outputs, descriptions, and for the shell tool "
+                    "every data member) and every diagnostic against BSAttrs.run on the generated tables; python oracle: equivalent definitions load identically, "
+                    "unsigned keys do not move the signature, shell definitions whose loaded hashed members differ have different signatures.  18 two-build histories through bin/llbuild "
                     "(one attribute changed between the builds). "
                     "Non-trivial = pairs whose signature-relevant parts differ.")
         res.exhaustive = False
